@@ -52,6 +52,8 @@ type Solver struct {
 	log       []string // commands in live scopes (for portfolio replays)
 	dead      bool
 	kind      string
+	lastFallback bool   // the last sat/unsat came from a fallback solver
+	fbModel   *Model    // model delivered by the fallback solver (if any)
 	CrossEvery int // re-ask every n-th decided query to a second solver (0 = never)
 	nq        int
 	LastErr   string
@@ -257,15 +259,21 @@ func (s *Solver) Check() string {
 		s.LastErr = l
 	}
 	atomic.AddInt64(&GlobalSolverStats.NanosZ3, int64(time.Since(t0)))
+	if QueryLog && time.Since(t0) > 3*time.Second {
+		os.WriteFile(fmt.Sprintf("/tmp/slowq-%d.smt2", time.Now().UnixNano()), []byte(strings.Join(s.log, "\n")+"\n(check-sat)\n"), 0o644)
+	}
 	if QueryLog {
 		fmt.Fprintf(os.Stderr, "query: %s %.3fs (script %d lines)\n", res, time.Since(t0).Seconds(), len(s.log))
 	}
 	if res == "error" {
 		panic(engineFault{"solver error: " + s.LastErr})
 	}
+	s.lastFallback = false
+	s.fbModel = nil
 	if res == "unknown" {
 		atomic.AddInt64(&GlobalSolverStats.Fallbacks, 1)
 		res = s.fallback()
+		s.lastFallback = true
 	} else if s.CrossEvery > 0 {
 		s.nq++
 		if s.nq%s.CrossEvery == 0 {
@@ -314,11 +322,22 @@ func (s *Solver) Check() string {
 	return res
 }
 
-var fallbackSem = make(chan struct{}, 16)
+type fbres struct {
+	res string
+	m   *Model
+}
 
 // fallback replays the live script one-shot into the other solvers.
 func (s *Solver) fallback() string {
-	script := strings.Join(s.log, "\n") + "\n(check-sat)\n"
+	var names []string
+	for n := range s.declared {
+		names = append(names, n)
+	}
+	getv := ""
+	if len(names) > 0 {
+		getv = "(get-value (" + strings.Join(names, " ") + "))\n"
+	}
+	script := "(set-option :produce-models true)\n" + strings.Join(s.log, "\n") + "\n(check-sat)\n" + getv
 	t0 := time.Now()
 	defer func() { atomic.AddInt64(&GlobalSolverStats.NanosOther, int64(time.Since(t0))) }()
 	type cand struct {
@@ -338,7 +357,7 @@ func (s *Solver) fallback() string {
 	if s.kind == "cvc5int" {
 		cands[0] = cand{"z3", []string{"-in", "-smt2", fmt.Sprintf("-T:%d", secs)}, ""}
 	}
-	results := make(chan string, len(cands))
+	results := make(chan fbres, len(cands))
 	var wg sync.WaitGroup
 	var cmds []*exec.Cmd
 	var mu sync.Mutex
@@ -357,25 +376,37 @@ func (s *Solver) fallback() string {
 			mu.Unlock()
 			cmd.Run()
 			o := out.String()
-			if strings.Contains(o, "(error") {
-				results <- "unknown"
-				return
-			}
-			for _, l := range strings.Split(o, "\n") {
+			lines := strings.Split(o, "\n")
+			for k, l := range lines {
 				l = strings.TrimSpace(l)
-				if l == "sat" || l == "unsat" {
-					results <- l
+				if strings.HasPrefix(l, "(error") {
+					// an error before the verdict: the solver may have dropped an assertion
+					results <- fbres{res: "unknown"}
+					return
+				}
+				if l == "unsat" {
+					results <- fbres{res: l}
+					return
+				}
+				if l == "sat" {
+					m := &Model{vals: make(map[string]*big.Int)}
+					if parseValues(strings.Join(lines[k+1:], " "), m) {
+						results <- fbres{res: l, m: m}
+					} else {
+						results <- fbres{res: l}
+					}
 					return
 				}
 			}
-			results <- "unknown"
+			results <- fbres{res: "unknown"}
 		}()
 	}
 	res := "unknown"
 	for i := 0; i < len(cands); i++ {
 		r := <-results
-		if r == "sat" || r == "unsat" {
-			res = r
+		if r.res == "sat" || r.res == "unsat" {
+			res = r.res
+			s.fbModel = r.m
 			break
 		}
 	}
@@ -393,6 +424,12 @@ func (s *Solver) fallback() string {
 // Model fetches values for vars after a "sat" answer from the primary solver.
 // If the primary did not produce the sat (fallback), ok=false.
 func (s *Solver) Model(vars []*Term) (*Model, bool) {
+	if s.lastFallback {
+		if s.fbModel != nil {
+			return s.fbModel, true
+		}
+		return nil, false
+	}
 	m := &Model{vals: make(map[string]*big.Int)}
 	if len(vars) == 0 {
 		return m, true
